@@ -62,14 +62,15 @@ CONSTANTS MaxRank,     \* ranks are 0..MaxRank
 Ranks == 0..MaxRank
 AllDevs == {"double-max-sentinel-dbl-min", "long-value-rounded-onto-boundary", "diff-sum-not-computed"}
 
-VARIABLES tab, B, bs, mm, temp,   \* configuration, chosen in Init (bs = B as an ascending sequence)
+VARIABLES tab, B, bs, bk, mm, temp,   \* configuration, chosen in Init (bs = B as an ascending sequence,
+                                  \* bk = the bucket of every rank by the statement's rule InBucket)
           obj,                \* direct: [slot -> object]
           rd,                 \* pipe: [reader -> [key -> [since, seen, acc, cum]]]
           nagg, nops, turn,
           hist
 
-cvars == <<tab, B, bs, mm, temp>>
-bvars == <<tab, B, bs, mm, temp, obj, rd, nagg, nops, turn>>
+cvars == <<tab, B, bs, bk, mm, temp>>
+bvars == <<tab, B, bs, bk, mm, temp, obj, rd, nagg, nops, turn>>
 vars  == <<bvars, hist>>
 
 (* ---- abstract facts of the concretisation tables ---------------------- *)
@@ -112,10 +113,11 @@ BucketOf(v) == Cardinality({b \in B : b < v}) + 1
 
 (* ---- property level: the summary of a multiset ------------------------- *)
 \* S: set of deviations assumed present (only alternatives use S # {})
-EffRank(v, S) == IF "long-value-rounded-onto-boundary" \in S /\ Kind(tab) = "long" THEN RoundsTo(tab, v) ELSE v
+EffRank(v, S) == IF S = {} THEN v
+                 ELSE IF "long-value-rounded-onto-boundary" \in S /\ Kind(tab) = "long" THEN RoundsTo(tab, v) ELSE v
 RECURSIVE CntIn(_, _, _, _)
 CntIn(bag, S, i, n) == IF n < 0 THEN 0
-                       ELSE (IF InBucket(EffRank(n, S), i) THEN bag[n] ELSE 0) + CntIn(bag, S, i, n - 1)
+                       ELSE (IF bk[EffRank(n, S)] = i THEN bag[n] ELSE 0) + CntIn(bag, S, i, n - 1)
 CountsOf(bag, S) == [i \in 1..(NB + 1) |-> CntIn(bag, S, i, MaxRank)]
 \* JSON-friendly observable projection. sum is the multiset (per-rank multiplicities) whose exact
 \* concrete sum the replayer computes; min/max = -1: not compared; max = -2: the DBL_MIN sentinel
@@ -157,6 +159,7 @@ AltsOf(o) == {[devs |-> S, n |-> Cardinality(S), pt |-> AltOf(o, S)] :
 
 (* ---- state -------------------------------------------------------------- *)
 Slots == 1..NSlots
+MaxBag == 48     \* repeated self-merges double a multiset; keeps concrete int64 sums far from overflow
 Keys  == 1..NKeys
 Readers == 1..Len(temp)
 NoObj == [live |-> FALSE, bag |-> Zero, sd |-> Zero, mmv |-> FALSE, pt |-> EmptyP(FALSE)]
@@ -168,6 +171,7 @@ RC(c) == IF c < 10 THEN <<TChar(c)>> ELSE <<TChar(c \div 10), TChar(c % 10)>>
 
 Init ==
   /\ tab \in Tables /\ B \in BoundSets /\ bs = AscSeq(B) /\ mm \in MMChoices
+  /\ bk = [v \in Ranks |-> CHOOSE i \in 1..(Len(bs) + 1) : InBucket(v, i)]
   /\ temp \in (IF Mode = "pipe" THEN {RC(c) : c \in ReaderCfgs} ELSE {<<>>})
   /\ obj = [s \in Slots |-> NoObj]
   /\ rd = [r \in Readers |-> [k \in Keys |-> Cell0]]
@@ -180,22 +184,30 @@ Init ==
 Rec(e) == hist' = IF Hist THEN Append(hist, e) ELSE hist
 Turn(kinds) == turn = "any" \/ turn \in kinds
 Done == turn' = IF Balanced THEN "pick" ELSE turn
+\* model checking bounds Aggregate/Record steps and the other steps separately; generation runs
+\* (Balanced) bound their sum, so that a picked kind is never disabled by a bound
+Total == MaxAgg + MaxOps
+CanAgg == IF Balanced THEN nagg + nops < Total ELSE nagg < MaxAgg
+CanOp  == IF Balanced THEN nagg + nops < Total ELSE nops < MaxOps
 
 DirectKinds == {"agg1", "agg2", "merge", "diff", "new"}
 PipeKinds   == {"rec1", "rec2", "col"}
-Pick(t) == /\ Balanced /\ turn = "pick" /\ turn' = t
+PickOK(t) == CASE t = "new" -> \E s \in 1..NSlots : ~obj[s].live
+                 [] t \in {"agg1", "agg2", "merge", "diff"} -> \E s \in 1..NSlots : obj[s].live
+                 [] OTHER -> TRUE
+Pick(t) == /\ Balanced /\ turn = "pick" /\ nagg + nops < Total /\ PickOK(t) /\ turn' = t
            /\ UNCHANGED <<cvars, obj, rd, nagg, nops, hist>>
 
 (* ---- direct scenario ----------------------------------------------------- *)
 DNew(s) ==
-  /\ Mode = "direct" /\ Turn({"new"}) /\ nops < MaxOps
+  /\ Mode = "direct" /\ Turn({"new"}) /\ CanOp
   /\ ~obj[s].live
   /\ obj' = [obj EXCEPT ![s] = Fresh]
   /\ nops' = nops + 1 /\ Done /\ UNCHANGED <<cvars, rd, nagg>>
   /\ Rec([op |-> "new", s |-> s, exp |-> ExpOf(obj'[s]), alts |-> AltsOf(obj'[s])])
 
 DAgg(s, v) ==
-  /\ Mode = "direct" /\ Turn({"agg1", "agg2"}) /\ nagg < MaxAgg
+  /\ Mode = "direct" /\ Turn({"agg1", "agg2"}) /\ CanAgg
   /\ obj[s].live /\ v \in ValRanks(tab)
   /\ obj' = [obj EXCEPT ![s] = [@ EXCEPT !.bag = BAdd(@, v), !.sd = BAdd(@, v), !.pt = AggP(@, v)]]
   /\ nagg' = nagg + 1 /\ Done /\ UNCHANGED <<cvars, rd, nops>>
@@ -203,8 +215,9 @@ DAgg(s, v) ==
 
 \* d := a.Merge(b)   (d may be a or b: the result replaces that object afterwards)
 DMerge(d, a, b) ==
-  /\ Mode = "direct" /\ Turn({"merge"}) /\ nops < MaxOps
+  /\ Mode = "direct" /\ Turn({"merge"}) /\ CanOp
   /\ obj[a].live /\ obj[b].live
+  /\ BSize(obj[a].bag) + BSize(obj[b].bag) <= MaxBag
   /\ obj' = [obj EXCEPT ![d] = [live |-> TRUE, bag |-> BUnion(obj[a].bag, obj[b].bag),
                                 sd |-> BUnion(obj[a].sd, obj[b].sd), mmv |-> obj[a].mmv /\ obj[b].mmv,
                                 pt |-> MergeP(obj[a].pt, obj[b].pt)]]
@@ -213,7 +226,7 @@ DMerge(d, a, b) ==
 
 \* d := a.Diff(b), b being a later cumulative snapshot of a
 DDiff(d, a, b) ==
-  /\ Mode = "direct" /\ Turn({"diff"}) /\ nops < MaxOps
+  /\ Mode = "direct" /\ Turn({"diff"}) /\ CanOp
   /\ obj[a].live /\ obj[b].live /\ BLeq(obj[a].bag, obj[b].bag)
   /\ obj' = [obj EXCEPT ![d] = [live |-> TRUE, bag |-> BMinus(obj[b].bag, obj[a].bag),
                                 sd |-> Zero, mmv |-> FALSE, pt |-> DiffP(obj[a].pt, obj[b].pt)]]
@@ -222,7 +235,7 @@ DDiff(d, a, b) ==
 
 (* ---- pipeline scenario --------------------------------------------------- *)
 PRecord(k, v) ==
-  /\ Mode = "pipe" /\ Turn({"rec1", "rec2"}) /\ nagg < MaxAgg
+  /\ Mode = "pipe" /\ Turn({"rec1", "rec2"}) /\ CanAgg
   /\ v \in ValRanks(tab)
   /\ rd' = [r \in Readers |-> [rd[r] EXCEPT ![k] = [@ EXCEPT !.since = BAdd(@, v), !.acc = AggP(@, v)]]]
   /\ nagg' = nagg + 1 /\ Done /\ UNCHANGED <<cvars, obj, nops>>
@@ -231,7 +244,7 @@ PRecord(k, v) ==
 \* what reader r must be shown for key k by a collection now
 Reported(r, k) == IF temp[r] = "d" THEN rd[r][k].since ELSE BUnion(rd[r][k].seen, rd[r][k].since)
 PCollect(r) ==
-  /\ Mode = "pipe" /\ Turn({"col"}) /\ nops < MaxOps
+  /\ Mode = "pipe" /\ Turn({"col"}) /\ CanOp
   /\ LET rep == [k \in Keys |-> [bag |-> Reported(r, k), sd |-> Reported(r, k), mmv |-> mm]] IN
      Rec([op |-> "collect", r |-> r,
           pts |-> [k \in Keys |-> [must |-> BSize(rep[k].bag) > 0, exp |-> ExpOf(rep[k]), alts |-> AltsOf(rep[k])]]])
@@ -265,9 +278,10 @@ TypeOK == /\ B \subseteq Ranks /\ tab \in Tables /\ mm \in BOOLEAN
           /\ Len(bs) = Cardinality(B) /\ \A i \in 1..Len(bs) : bs[i] \in B /\ (i > 1 => bs[i - 1] < bs[i])
           /\ ForAllPoints(LAMBDA p, bag, mmv : Len(p.counts) = NB + 1)
 BucketsPartition == ForAllPoints(LAMBDA p, bag, mmv : SumSeq(p.counts) = p.count /\ p.count = BSize(bag))
-BucketRule == ForAllPoints(LAMBDA p, bag, mmv : \A i \in 1..(NB + 1) : p.counts[i] = CntIn(bag, {}, i, MaxRank))
-EveryValueInOneBucket == \A v \in Ranks : Cardinality({i \in 1..(NB + 1) : InBucket(v, i)}) = 1
-                                          /\ InBucket(v, BucketOf(v))
+BucketRule == ForAllPoints(LAMBDA p, bag, mmv : \A i \in 1..(NB + 1) :
+                  p.counts[i] = SumUpTo([r \in Ranks |-> IF InBucket(r, i) THEN bag[r] ELSE 0], MaxRank))
+EveryValueInOneBucket == \A v \in Ranks : /\ Cardinality({i \in 1..(NB + 1) : InBucket(v, i)}) = 1
+                                          /\ InBucket(v, bk[v]) /\ bk[v] = BucketOf(v)
 SumExact == ForAllPoints(LAMBDA p, bag, mmv : p.bag = bag)
 MinMaxExact == ForAllPoints(LAMBDA p, bag, mmv : (mmv /\ p.count > 0) =>
                               (p.mmv /\ p.min = BMin(bag) /\ p.max = BMax(bag)))
@@ -300,10 +314,12 @@ Bound == nagg <= MaxAgg /\ nops <= MaxOps
 
 (* ---- behaviour export ----------------------------------------------------- *)
 View == bvars
-Finished == nops = MaxOps /\ (turn \in {"pick", "any"})
+Finished == nagg + nops = Total /\ (turn \in {"pick", "any"})
 EmitAll == Finished => PrintT(<<"BEH", ToJson(hist)>>)
 \* every behaviour whose length is exactly D steps (BFS to a small depth)
-EmitAtDepth == (Len(hist) = MaxOps + MaxAgg + 1) => PrintT(<<"BEH", ToJson(hist)>>)
+EmitAtDepth == (Len(hist) = Total + 1) => PrintT(<<"BEH", ToJson(hist)>>)
+FullView == vars
+TotalBound == nagg + nops <= Total
 LastAlts == IF Len(hist) < 2 THEN {}
             ELSE LET e == hist[Len(hist)] IN
                  IF e.op = "collect" THEN UNION {{a.devs : a \in e.pts[k].alts} : k \in Keys}
